@@ -392,7 +392,7 @@ func runWeb(ctx context.Context, hc *http.Client, base string, s *Script, callID
 	if s.MetaPlan {
 		req.Header.Set("X-Vf-Plan-Bin", encodeBin([]byte(s.planJSON())))
 	}
-	addMD(req.Header, s.MD)
+	addMD(req.Header, s.MD, s.BinPad)
 	resp, err := hc.Do(req)
 	if err != nil {
 		t.TransportErr = err.Error()
@@ -472,11 +472,15 @@ func runWeb(ctx context.Context, hc *http.Client, base string, s *Script, callID
 // addMD puts the custom metadata on an HTTP request / WebSocket handshake.
 // "-bin" values travel base64-encoded; a key spelled with upper case letters
 // is sent in that spelling (no canonicalisation by net/http).
-func addMD(h http.Header, md []KV) {
+func addMD(h http.Header, md []KV, pad bool) {
 	for _, kv := range md {
 		v := string(kv.V)
 		if strings.HasSuffix(strings.ToLower(kv.K), "-bin") {
 			v = encodeBin(kv.V)
+			if pad {
+				// the other legal spelling: padded standard base64
+				v = base64.StdEncoding.EncodeToString(kv.V)
+			}
 		}
 		if kv.K != strings.ToLower(kv.K) {
 			h[kv.K] = append(h[kv.K], v)
@@ -543,7 +547,7 @@ func runHTTP(ctx context.Context, hc *http.Client, base string, s *Script, callI
 	if s.MetaPlan {
 		req.Header.Set("X-Vf-Plan-Bin", encodeBin([]byte(s.planJSON())))
 	}
-	addMD(req.Header, s.MD)
+	addMD(req.Header, s.MD, s.BinPad)
 	resp, err := hc.Do(req)
 	if err != nil {
 		t.TransportErr = err.Error()
